@@ -55,13 +55,31 @@ fn realise<S: Subject>(order: usize, arcs: &[(usize, usize, i64)], style: u8, no
     let want: BTreeSet<(usize, usize)> = arcs.iter().map(|a| (a.0, a.1)).collect();
     let mut steps = 0;
     let (mut g, _) = S::start(&Start {
-        via: if style % 6 == 4 && !S::WEIGHTED { 3 } else { 0 },
+        via: if style % 7 == 4 && !S::WEIGHTED { 3 } else { 0 },
         order,
         arcs: vec![],
         gen_kind: 1, // complete
         seed: 0,
     });
-    match style % 6 {
+    match style % 7 {
+        6 => {
+            // every add is followed by calls that must be rejected (and caught by
+            // the caller): a rejected call must leave no trace in ==, hash or cmp
+            for (i, a) in arcs.iter().enumerate() {
+                g.add(a.0, a.1, a.2);
+                let x = if i % 2 == 0 { a.0 } else { order + 4 + i };
+                let _ = guarded(|| g.add(x, x, 1));
+                if S::FIXED {
+                    let _ = guarded(|| g.add(a.0, order + i % 3, 1));
+                    let _ = guarded(|| g.add(order + 1 + i % 2, a.1, 1));
+                }
+                steps += 1;
+            }
+            if arcs.is_empty() {
+                let _ = guarded(|| g.add(order + 2, order + 2, 1));
+                let _ = guarded(|| g.add(0, 0, 1));
+            }
+        }
         1 => {
             for a in arcs.iter().rev() {
                 g.add(a.0, a.1, a.2);
@@ -183,8 +201,8 @@ fn run<S: Subject + Hash + Ord>(c: &Case, name: &str, obs: &mut Obs) -> Verdict 
         .map_err(|p| format!("{name}: history B panicked: {p}"))?;
     let ma = model_of::<S>(n, &arcs_a, name);
     let mb = model_of::<S>(order_b, &arcs_b, name);
-    compare(&a, &ma, true, &format!("{name} history A (style {})", c.style_a % 6))?;
-    compare(&b, &mb, true, &format!("{name} history B (style {})", c.style_b % 6))?;
+    compare(&a, &ma, true, &format!("{name} history A (style {})", c.style_a % 7))?;
+    compare(&b, &mb, true, &format!("{name} history B (style {})", c.style_b % 7))?;
     let same_abstract = expected(&ma) == expected(&mb);
     ensure!(same_abstract != differs, "harness: diff bookkeeping");
     if same_abstract {
@@ -294,12 +312,12 @@ fn run<S: Subject + Hash + Ord>(c: &Case, name: &str, obs: &mut Obs) -> Verdict 
         );
         obs.label(if changed { "mutation-changes-digraph" } else { "mutation-is-noop" });
     }
-    obs.label(format!("styles={}/{}", c.style_a % 6, c.style_b % 6));
+    obs.label(format!("styles={}/{}", c.style_a % 7, c.style_b % 7));
     obs.label(if same_abstract { "same-abstract-digraph" } else { "different-abstract-digraph" });
     if steps_a.abs_diff(steps_b) >= 3 {
         obs.label("history-lengths-differ>=3");
     }
-    let removal = [c.style_a % 6, c.style_b % 6].iter().any(|s| matches!(s, 2 | 3 | 4));
+    let removal = [c.style_a % 7, c.style_b % 7].iter().any(|s| matches!(s, 2 | 3 | 4));
     if removal {
         obs.label("history-with-removal");
     }
@@ -462,7 +480,7 @@ impl Prop for C20 {
             0..6_u8,
             prop_oneof![3 => prop::sample::select(vec![8_usize, 9, 11, 16, 8, 9, 11, 16, 65, 66]), 7 => 1_usize..=max],
             vec(((any::<u16>(), any::<u16>()), -9..9_i64), 0..=40),
-            (0..6_u8, 0..6_u8),
+            (0..7_u8, 0..7_u8),
             vec((any::<u16>(), any::<u16>()), 0..=8),
             (any::<u8>(), (any::<u16>(), any::<u16>())),
             (0..3_u8, any::<u16>(), any::<u16>(), -9..9_i64, any::<bool>()),
